@@ -462,6 +462,8 @@ class Facts:
         for b in self.bodies:
             self.by_path.setdefault(b.path, b)
         self.adts = {a["path"]: a for a in self.j["adts"]}
+        # enums of other crates whose discriminant the crate reads: path -> {discriminant: variant name}
+        self.foreign_enums = {e["path"]: {v["discr"]: v["name"] for v in e["variants"]} for e in self.j.get("foreign_enums", [])}
         self.impls = self.j["impls"]
         self.fns = {f["path"]: f for f in self.j["fns"]}
 
